@@ -19,32 +19,34 @@ Section Chain.
   Hypothesis Hds : forall z c a lb o e i t sg ow cl rds, zsigned z (Signed c a lb o e i t sg ow cl rds) -> c = T_DS ->
       forall d k, In (r_id d) rds -> r_type d = T_DS -> ds_binds d k -> honest (r_owner d) (k_mat k).
 
-  (* one hop: the DS response dm for child c, validated with zone z's keys under DS set ds *)
-  Fixpoint chain_ok (z : name) (ds : list rr) (hops : list (name * msg)) : Prop :=
+  (* one hop of the descent: the DS response dm for child c is validated with zone z's keys; the
+     child's own DNSKEY answer km is validated against the DS set taken from dm *)
+  Fixpoint chain_ok (z : name) (keys : list key) (hops : list (name * msg * msg)) : Prop :=
     match hops with
     | [] => True
-    | (c, dm) :: rest =>
-        m_qtype dm = T_DS /\
-        verify_dnssec_fixed E z dm ds = (true, None) /\
-        chain_ok c (extract (m_ans dm) (Some c) T_DS) rest
+    | (c, dm, km) :: rest =>
+        c <> [] /\ own_query c km = true /\
+        verify_rrsig (e_nrank E) (e_now E) z keys (m_ans dm) (m_ns dm) = (true, None) /\
+        verify_dnssec_fixed E c km (extract (m_ans dm) (Some c) T_DS) = (true, None) /\
+        chain_ok c (keys_of_msg c km) rest
     end.
-  Fixpoint last_link (z : name) (ds : list rr) (hops : list (name * msg)) : name * list rr :=
+  Fixpoint last_keys (z : name) (keys : list key) (hops : list (name * msg * msg)) : name * list key :=
     match hops with
-    | [] => (z, ds)
-    | (c, dm) :: rest => last_link c (extract (m_ans dm) (Some c) T_DS) rest
+    | [] => (z, keys)
+    | (c, _, km) :: rest => last_keys c (keys_of_msg c km) rest
     end.
+  Definition keys_honest (z : name) (keys : list key) : Prop := forall k, In k keys -> honest z (k_mat k).
 
-  Lemma hop_sound z ds c dm :
-    ds_authentic z ds -> m_qtype dm = T_DS -> verify_dnssec_fixed E z dm ds = (true, None) ->
+  Lemma ds_hop_sound z keys c dm :
+    keys_honest z keys ->
+    verify_rrsig (e_nrank E) (e_now E) z keys (m_ans dm) (m_ns dm) = (true, None) ->
     ds_authentic c (extract (m_ans dm) (Some c) T_DS).
   Proof.
-    intros Ha Hq Hv d k Hd Hb.
+    intros Hk Hv d k Hd Hb.
     unfold extract in Hd. apply filter_In in Hd as [Hd Hf]. apply andb_true_iff in Hf as [Ht Ho].
     apply N.eqb_eq in Ht. apply name_eqb_eq in Ho.
-    assert (Hro : root_own z dm = false).
-    { unfold root_own. rewrite Hq. reflexivity. }
-    pose proof (verify_dnssec_fixed_sound_lemma (honest z) (zsigned z) E z dm ds Hro Ha) as S. cbn zeta in S.
-    destruct S as [Sa _]; [intros m _; split; [apply Hforge|apply Hkeys]|apply Hforge|exact Hv|].
+    pose proof (verify_rrsig_sound_lemma (honest z) (zsigned z) _ _ _ _ _ _ Hv Hk (Hforge z _)) as S. cbn zeta in S.
+    destruct S as [Sa _].
     assert (Hns : is_sig d = false) by (unfold is_sig; rewrite Ht; reflexivity).
     assert (Hsy : is_synth (dnames_of z (m_ans dm) (m_ns dm)) d = false).
     { destruct Hb as (tag & alg & dt & dg & rk & Hrd & _). unfold is_synth. rewrite Hrd. reflexivity. }
@@ -59,14 +61,18 @@ Section Chain.
     unfold gk in Hh. injection Hh as _ Hty _. congruence.
   Qed.
 
-  Theorem chain_sound_fixed_lemma hops : forall z ds,
-    ds_authentic z ds -> chain_ok z ds hops ->
-    let '(c, dsc) := last_link z ds hops in ds_authentic c dsc.
+  Theorem chain_sound_fixed_lemma hops : forall z keys,
+    keys_honest z keys -> chain_ok z keys hops ->
+    let '(c, kc) := last_keys z keys hops in keys_honest c kc.
   Proof.
-    induction hops as [|[c dm] rest IH]; intros z ds Ha Hc; cbn.
-    - exact Ha.
-    - cbn in Hc. destruct Hc as (Hq & Hv & Hrest).
-      apply IH; [|exact Hrest]. eapply hop_sound; eauto.
+    induction hops as [|[[c dm] km] rest IH]; intros z keys Hk Hc; cbn.
+    - exact Hk.
+    - cbn in Hc. destruct Hc as (Hne & Hown & Hvd & Hvk & Hrest).
+      apply IH; [|exact Hrest].
+      assert (Hro : root_own c km = false).
+      { unfold root_own. rewrite Hown. destruct c; [contradiction|reflexivity]. }
+      assert (Hdsa : ds_authentic c (extract (m_ans dm) (Some c) T_DS)) by (eapply ds_hop_sound; eauto).
+      exact (keys_fixed_honest (honest c) (zsigned c) E c km _ Hro Hown Hdsa (Hforge c _) (Hkeys c _) Hvk).
   Qed.
 
   (* the anchor: the DS set made from the configured root keys binds exactly those keys *)
@@ -217,7 +223,7 @@ Lemma ede_of_model_errors :
     [ENoDNSKEY; EMissingKSK; EFailedToConvertKSK; EMismatchingDS; ENoSignatures; EMissingDNSKEY;
      EInvalidSignaturePeriod; EMissingSigned; EDSRecords; ETrustAnchorsUnavailable; ENSECMissingCoverage;
      EWildcardNoDenial; EAlg; ESig; EPack; EDSSetEmpty; EDSNotFound; EQuestion].
-Proof. repeat constructor; vm_compute; tauto. Qed.
+Proof. repeat apply Forall_cons; try apply Forall_nil; vm_compute; tauto. Qed.
 
 (* ----------------------------------------------------------- tamper algebra *)
 Section Tamper.
